@@ -628,7 +628,7 @@ Lemma CurInv_next total c x rest : CurInv total c (x :: rest) ->
 Proof.
   intros [He [H0 [Hn [fin Hit]]]]. cbn [length xor_iter] in Hit.
   destruct (xor_next (cu_it c) (cu_bits c)) as [[it' bs']|] eqn:Hnx; [|discriminate].
-  destruct (xor_iter (length rest) it' bs') as [l r] eqn:Hrest. injection Hit as E1 E2 E3. subst.
+  destruct (xor_iter (length rest) it' bs') as [l r] eqn:Hrest. injection Hit as E1 E2 E3. subst l r x.
   pose proof (xor_next_num _ _ _ _ Hnx) as Hnum.
   exists (mkXC it' bs' false). unfold xcur_next. rewrite He. cbn [orb].
   replace (i_num (cu_it c) =? total) with false
@@ -720,8 +720,8 @@ Proof.
         (* ok = true means the cursor stands on a sample *)
         exfalso. clear - Hs Hz. unfold cur_of in Hs. rewrite Hz in Hs.
         revert Hs. generalize (Some c0). induction rest as [|y r IHr]; intros cur0 Hs; cbn in Hs.
-        -- injection Hs as _ _ Hb. discriminate.
-        -- destruct (t <=? s_t y); [injection Hs as Hc _ _; discriminate|]. exact (IHr _ Hs).
+        -- discriminate Hs.
+        -- destruct (t <=? s_t y); [discriminate Hs|]. exact (IHr _ Hs).
     + destruct (seek_loop_spec total t rest (S (Z.to_nat total)) c HI Hfuel) as [c' [rest' [Hl [Hs HI']]]].
       { left. exact Hcur. }
       rewrite Hcur in Hl, Hs. rewrite Hl.
@@ -729,8 +729,8 @@ Proof.
       rewrite (IH c' rest' HI' Hlen'). rewrite Hs.
       destruct (snd (seek_rest t None rest)) eqn:Hok; [|reflexivity].
       unfold cur_of. destruct (i_num (cu_it c') =? 0) eqn:Hz; [|reflexivity].
-      exfalso. clear - Hs Hz Hok. unfold cur_of in Hs. rewrite Hz in Hs. rewrite Hok in Hs.
+      exfalso. clear - Hs Hz Hok. unfold cur_of in Hs. rewrite Hz in Hs.
       revert Hs. generalize (@None sample). induction rest as [|y r IHr]; intros cur0 Hs; cbn in Hs.
-      -- injection Hs as _ _ Hb. discriminate.
-      -- destruct (t <=? s_t y); [injection Hs as Hc _ _; discriminate|]. exact (IHr _ Hs).
+      -- discriminate Hs.
+      -- destruct (t <=? s_t y); [discriminate Hs|]. exact (IHr _ Hs).
 Qed.
